@@ -5,6 +5,7 @@ package main
 
 import (
 	"fmt"
+	"math"
 	"math/rand"
 	"net/http"
 	"net/http/httptest"
@@ -119,6 +120,23 @@ func c20Run(ci any) Result {
 	args := make([]interface{}, len(c.Args))
 	for i, a := range c.Args {
 		args[i] = a
+		// applications pass numbers as numbers: Reverse formats every value with %v
+		switch a {
+		case "7":
+			args[i] = int8(7)
+		case "18446744073709551615":
+			args[i] = uint64(math.MaxUint64)
+		case "9223372036854775808":
+			args[i] = uint64(1) << 63
+		case "-9223372036854775808":
+			args[i] = int64(math.MinInt64)
+		case "4294967295":
+			args[i] = uint32(math.MaxUint32)
+		case "1.5":
+			args[i] = 1.5
+		case "true":
+			args[i] = true
+		}
 	}
 	var url string
 	entryMismatch := ""
@@ -156,7 +174,12 @@ func c20Run(ci any) Result {
 		}
 	}
 	rt := routes[c.Idx]
-	rServeRec(e, &cur, rReq{Method: rt.Method, Path: url})
+	if (len(url)+c.Idx)%3 == 0 {
+		// a (no-op) Pre middleware is installed: routing then happens inside the Pre chain
+		e.Pre(func(next echo.HandlerFunc) echo.HandlerFunc { return func(ctx echo.Context) error { return next(ctx) } })
+	}
+	// the URL travels as a server would parse it: URL.Path decoded, URL.RawPath = the text as sent (when they differ)
+	rServeRec(e, &cur, rReq{Method: rt.Method, Path: url, Raw: len(url)%2 == 0})
 	res := Result{
 		Ops: wJoin(rTableWire(routes), wInt(c.Idx), wStrs(c.Args)),
 		Obs: wJoin(wStr(url), cur.wire()),
@@ -247,7 +270,7 @@ func c20H6(ctx echo.Context) error { return c20Record(ctx, 6) }
 func c20H7(ctx echo.Context) error { return c20Record(ctx, 7) }
 
 func rServeRec(e *echo.Echo, cur *rObs, q rReq) {
-	*cur = rObs{}
+	*cur = cur.keep()
 	defer func() {
 		if r := recover(); r != nil {
 			*cur = rObs{Kind: 'P', Panic: fmt.Sprint(r)}
@@ -270,7 +293,7 @@ func rServeRec(e *echo.Echo, cur *rObs, q rReq) {
 	}
 }
 
-var c20Values = []string{"a", "ab", "7", "x.y", "a:b", ":", "%41", "%2F", "a%2Fb", "a%2fb%2F", "{x}", "a|b", "a+b", "a%00b", "\xc3\xa9", "a b", "*", "new", "users", "-", "a\\b"}
+var c20Values = []string{"a", "ab", "7", "18446744073709551615", "9223372036854775808", "-9223372036854775808", "4294967295", "1.5", "true", "x.y", "a:b", ":", "%41", "%2F", "a%2Fb", "a%2fb%2F", "{x}", "a|b", "a+b", "a%00b", "\xc3\xa9", "a b", "*", "new", "users", "-", "a\\b"}
 var c20Wild = []string{"", "a", "a/b", "/", "a/b/c.txt", "x:y", "%2e%2e", "\xc3\xa9/\xc3\xa9", "*", "//"}
 
 func c20Gen(r *rand.Rand, tier string) []any {
